@@ -77,6 +77,13 @@ Fixpoint add (P Q : poly) : poly :=
   | _, [] => P
   | a :: P', b :: Q' => add_ a b :: add P' Q'
   end.
+(* addin(R,P): P empty -> R; R empty -> assign(R,P) (stripped); otherwise entrywise, no setdegree *)
+Definition addin (R P : poly) : poly :=
+  match P, R with
+  | [], _ => R
+  | _, [] => setdegree P
+  | _, _ => add R P
+  end.
 Definition neg (P : poly) : poly := map neg_ P.
 (* sub(R,P,Q): no setdegree *)
 Fixpoint sub (P Q : poly) : poly :=
@@ -99,24 +106,26 @@ Definition subin_range (R P : poly) : poly :=
   | _ => if length R <? length P then setdegree (sub R P) else sub R P
   end.
 (* scalar forms *)
+(* add(R,P,Val), add(R,Val,P): REPAIRED behaviour (frag/C08.fix-3.diff): the emptiness test is isZero(P)
+   (P stripped first); as written the code tested P.size()==0 and wrote R[0] of an empty vector for P = [0] *)
 Definition add_s (P : poly) (v : T) : poly :=
-  match P with
+  match assign P with
   | [] => [v]
-  | p0 :: _ => match assign P with [] => [] (* writes R[0] of an empty vector *) | _ :: R' => add_ p0 v :: R' end
+  | p0 :: R' => add_ p0 v :: R'
   end.
 Definition addin_s (R : poly) (v : T) : poly :=
   match R with [] => [v] | r0 :: R' => add_ r0 v :: R' end.
 Definition sub_s (P : poly) (v : T) : poly :=
-  match P with
+  match assign P with
   | [] => [neg_ v]
-  | p0 :: _ => match assign P with [] => [] | _ :: R' => sub_ p0 v :: R' end
+  | p0 :: R' => sub_ p0 v :: R'
   end.
 Definition subin_s (R : poly) (v : T) : poly :=
   match R with [] => [neg_ v] | r0 :: R' => sub_ r0 v :: R' end.
 Definition s_sub (v : T) (P : poly) : poly :=
   match P with
   | [] => [neg_ v]
-  | p0 :: P' => add_ v p0 :: neg P'           (* neg(R,P); _domain.add(R[0],Val,P[0]) -- as written *)
+  | p0 :: P' => sub_ v p0 :: neg P'           (* neg(R,P); R[0] = Val - P[0]: REPAIRED (frag/C08.fix-1.diff; the code adds) *)
   end.
 
 (* ---------------- givpoly1muldiv.inl: scalar products ---------------- *)
@@ -273,7 +282,10 @@ Definition invmodpowx (A : poly) (l : nat) : poly :=
   let G0 := [dinv D (coef A 0)] in
   newtoninviter (invmodpowx_loop l G0 A 2 l) A l.
 
-Definition div (A B : poly) : poly :=
+(* degree(degB,B); degree(degA,A) normalise B and A IN PLACE (const_cast in givpoly1misc.inl:degree),
+   so everything after them, in div and in its callers, sees the stripped vectors *)
+Definition div (A0 B0 : poly) : poly :=
+  let A := setdegree A0 in let B := setdegree B0 in
   let degB := degree B in
   let degA := degree A in
   if (degA <? degB)%Z then []
@@ -287,10 +299,12 @@ Definition div (A B : poly) : poly :=
     setdegree (rev Q).                                        (* reversein *)
 Definition pmulK := mul kthr.
 Definition maxpy (a b c : poly) : poly := sub c (pmulK a b).   (* axpy.inl: r = c - a*b *)
-Definition divmod (A B : poly) : poly * poly :=
+Definition divmod (A0 B0 : poly) : poly * poly :=
+  let A := setdegree A0 in let B := setdegree B0 in      (* stripped in place by div's degree() calls *)
   let Q := div A B in (Q, maxpy Q B A).
 Definition mod_ (A B : poly) : poly := snd (divmod A B).
-Definition divmodin (R B : poly) : poly * poly :=
+Definition divmodin (R0 B0 : poly) : poly * poly :=
+  let R := setdegree R0 in let B := setdegree B0 in
   let Q := div R B in (Q, subin R (pmulK Q B)).                (* maxpyin *)
 
 (* modin(A,B): in-place long division on the reversed vectors.  State: a = rev A, i. *)
@@ -345,7 +359,9 @@ Fixpoint pdivmod_loop (steps : nat) (Q R B : poly) (lB m : T) (degB degQuo degRe
   | O => (Q, R, m)
   | S s =>
     let q := coef R degRem in
-    let Q1 := upd Q degQuo q in
+    (* REPAIRED (frag/C08.fix-5.diff): the quotient terms already computed are multiplied by lB as well *)
+    let Q0 := upd Q degQuo q in
+    let Q1 := firstn (S degQuo) Q0 ++ map (fun a => mul_ a lB) (skipn (S degQuo) Q0) in
     let R1 := map (fun a => mul_ a lB) (firstn degQuo R) ++ skipn degQuo R in
     let R2 := pdivmod_inner R1 B lB q degQuo 0 degB in
     let R3 := upd R2 degRem O_ in
@@ -355,7 +371,7 @@ Definition pdivmod (A B : poly) : poly * poly * T :=
   let degB := degree B in let degA := degree A in
   if (degA =? -1)%Z then ([], [], I_)
   else if (degB =? 0)%Z then (assign A, [], coef B 0)
-  else if (degA =? 0)%Z then ([], [], I_)
+  else if (degA =? 0)%Z then ([], assign A, I_)      (* REPAIRED (frag/C08.fix-4.diff): the code returns R = 0 *)
   else if (degA <? degB)%Z then ([], assign A, I_)
   else
     let dQ := Z.to_nat (degA - degB) in
@@ -372,9 +388,11 @@ Fixpoint pmod_inner (R B : poly) (lB lr : T) (d j cnt : nat) : poly :=
   | S c => let v := sub_ (mul_ (coef R (j + d)) lB) (mul_ lr (coef B j)) in
            pmod_inner (upd R (j + d) v) B lB lr d (S j) c
   end.
-Fixpoint pmod_loop (fuel : nat) (R B : poly) (lB : T) (dB : nat) (degR : Z) : poly * Z :=
+(* REPAIRED (frag/C08.fix-6.diff): m is multiplied by lB once per elimination step, like R; the code set
+   m = lB^(degA-degB+1) up front, which is wrong whenever a step lowers the degree by more than one *)
+Fixpoint pmod_loop (fuel : nat) (R B : poly) (lB m : T) (dB : nat) (degR : Z) : poly * Z * T :=
   match fuel with
-  | O => (R, degR)
+  | O => (R, degR, m)
   | S f =>
     if (Z.of_nat dB <=? degR)%Z then
       let dR := Z.to_nat degR in
@@ -382,20 +400,19 @@ Fixpoint pmod_loop (fuel : nat) (R B : poly) (lB : T) (dB : nat) (degR : Z) : po
       let R1 := pmod_inner R B lB (coef R dR) d 0 dB in
       let R2 := map (fun a => mul_ a lB) (firstn d R1) ++ skipn d R1 in
       let R3 := upd R2 dR O_ in
-      pmod_loop f (setdegree R3) B lB dB (degree R3)          (* degree(degR,R) normalises R *)
-    else (R, degR)
+      pmod_loop f (setdegree R3) B lB (mul_ m lB) dB (degree R3)          (* degree(degR,R) normalises R *)
+    else (R, degR, m)
   end.
 Definition pmod (A B : poly) : poly * T :=
   let degB := degree B in let degA := degree A in
   if (degA =? -1)%Z then ([], I_)
   else if (degB =? 0)%Z then ([], coef B 0)
-  else if (degA =? 0)%Z then ([], I_)
+  else if (degA =? 0)%Z then (assign A, I_)          (* REPAIRED (frag/C08.fix-4.diff) *)
   else if (degA <? degB)%Z then (assign A, I_)
   else
     let dB := Z.to_nat degB in
     let lB := coef B dB in
-    let m := dom_pow lB (Z.to_nat (degA - degB + 1)) in
-    let '(R, degR) := pmod_loop (S (Z.to_nat degA)) (assign A) B lB dB degA in
+    let '(R, degR, m) := pmod_loop (S (Z.to_nat degA)) (assign A) B lB I_ dB degA in
     (setdegree (resize (Z.to_nat (degR + 1)) R), m).
 
 (* ---------------- givpoly1gcd.inl ---------------- *)
@@ -488,7 +505,8 @@ Definition lcm (A B : poly) : poly :=
     let '(_, G', _, S1, _, T1) :=
         egcd_loop (S (length G)) (div_s F r0) (div_s G r1) (const (dinv D r0)) [] [] (const (dinv D r1)) in
     if (degree G' <=? 0)%Z then
-      (if (degB <=? degA)%Z then pmulK S1 A else pmulK T1 B)
+      (* S1*F0 + T1*G0 = 0 with (F0,G0) = (A,B) or (B,A): REPAIRED (frag/C08.fix-2.diff; the code returns T1*B) *)
+      (if (degB <=? degA)%Z then pmulK S1 A else pmulK T1 A)
     else pmulK A B.
 
 (* ---------------- givpoly1misc.inl: pow, powmod ---------------- *)
@@ -514,14 +532,93 @@ Definition powmod (P : poly) (n : N) (U : poly) : poly :=
   | Npos p => setdegree (powmod_pos (assign [I_]) (mod_ P U) U p)
   end.
 
-(* ---------------- givpoly1axpy.inl ---------------- *)
-Definition axpy (a x y : poly) : poly := add (pmulK a x) y.                 (* addin(mul(r,a,x),y) *)
+(* isDivisor(P,Q): Q | P *)
+Definition isDivisor (P Q : poly) : bool := if isZero Q then isZero P else isZero (mod_ P Q).
+(* modpowx / modpowxin: resize(l); setdegree *)
+Definition modpowx (A : poly) (l : nat) : poly := setdegree (resize l (assign A)).
+(* div(R,u,P), mod(R,u,P): scalar dividend *)
+Definition div_sp (u : T) (P : poly) : poly :=
+  if is0 u then [] else if 1 <? length P then [] else setdegree [ddiv u (coef P 0)].
+Definition mod_sp (u : T) (P : poly) : poly := if 1 <? length P then [u] else [].
+(* mul(R,P,Q,Val,deg): coefficients Val..deg of the product, by the double loop of the code *)
+Fixpoint trunc_row (P Q : poly) (j : nat) (k : Z) (cnt : nat) (acc : T) : T :=
+  match cnt with
+  | O => acc
+  | S c => if (j <? length P) && (0 <=? k)%Z
+           then trunc_row P Q (S j) (k - 1) c (add_ acc (mul_ (coef P j) (coef Q (Z.to_nat k))))
+           else acc
+  end.
+Definition mul_trunc (P Q : poly) (v d : nat) : poly :=
+  match P, Q with
+  | [], _ | _, [] => []
+  | _, _ =>
+    let sQ := length Q in
+    setdegree (map (fun i => let k := i + v in
+                             if sQ <=? k then trunc_row P Q (k - (sQ - 1)) (Z.of_nat (sQ - 1)) (length P) O_
+                             else trunc_row P Q 0 (Z.of_nat k) (length P) O_)
+                   (seq 0 (d - v + 1)))
+  end.
+(* givpoly1cyclo.inl: power_compose(W,P,b) = P(X^b); REPAIRED (frag/C08.fix-7.diff): the zero polynomial gives 0 *)
+Definition power_compose (P : poly) (b : nat) : poly :=
+  match setdegree P with
+  | [] => []
+  | N => let dp := length N - 1 in
+         setdegree (map (fun i => if (Nat.modulo i b =? 0) && (Nat.div i b <=? dp) then coef N (Nat.div i b) else O_)
+                        (seq 0 (b * dp + 1)))
+  end.
+
+(* ---------------- givinterp.h: Interpolation::operator()(x,f) and interpolator() ---------------- *)
+(* state: inter, Pi, Points (in push order), DD (in push order) *)
+Fixpoint dd_update (x : T) (prev : T) (DDr Pr : list T) : list T :=   (* on the reversed vectors, next = DDr *)
+  match DDr, Pr with
+  | nx :: DDr', pt :: Pr' => let nx' := ddiv (sub_ nx prev) (sub_ pt x) in nx' :: dd_update x nx' DDr' Pr'
+  | _, _ => DDr
+  end.
+Definition interp_step (st : poly * poly * list T * list T) (xf : T * T) : poly * poly * list T * list T :=
+  let '(inter, Pi, Pts, DD) := st in
+  let '(x, f) := xf in
+  let DD1 := DD ++ [f] in
+  let '(Pi', DD2) :=
+      match DD with
+      | [] => (Pi, DD1)
+      | _ => let M := mul_s Pi (last Pts O_) in
+             (subin (O_ :: Pi) M, rev (f :: dd_update x f (rev DD) (rev Pts)))
+      end in
+  let M2 := mul_s Pi' (hd O_ DD2) in
+  (addin inter M2, Pi', Pts ++ [x], DD2).
+Definition interpolate (xs fs : list T) : poly :=
+  let '(inter, _, _, _) := fold_left interp_step (combine xs fs) ([], [I_], [], []) in inter.
+
 Fixpoint axpy_s (a : T) (x y : poly) : poly :=                               (* a*x + y entrywise, no setdegree *)
   match x, y with
   | [], _ => y
   | _, [] => map (mul_ a) x
   | xi :: x', yi :: y' => add_ (mul_ a xi) yi :: axpy_s a x' y'
   end.
+(* ---------------- givpoly1crt.h: ComputeCk, RingToRns, RnsToRing ---------------- *)
+Fixpoint crt_ck (prod : poly) (prev : T) (rest : list T) : list poly :=     (* _ck[1..Size-1] *)
+  match rest with
+  | [] => []
+  | pk :: rest' =>
+    let prod' := assign (pmulK prod [neg_ prev; I_]) in                    (* mulin(prod, X - primes[k-1]) *)
+    mul_s prod' (dinv D (eval prod' pk)) :: crt_ck prod' pk rest'
+  end.
+Fixpoint crt_fold (I : poly) (pts : list T) (rns : list T) (cks : list poly) : poly :=
+  match pts, rns, cks with
+  | pi :: pts', ri :: rns', ck :: cks' =>
+    let addon := add_ (neg_ (eval I pi)) ri in
+    crt_fold (axpy_s addon ck I) pts' rns' cks'      (* axpyin(I, addon, _ck[i]) *)
+  | _, _, _ => I
+  end.
+Definition crt_toring (pts rns : list T) : poly :=
+  match pts, rns with
+  | p0 :: pts', r0 :: rns' => crt_fold (monomial 0 r0) pts' rns' (crt_ck [I_] p0 pts')
+  | _, _ => []
+  end.
+Definition crt_torns (pts : list T) (a : poly) : list T := map (eval a) pts.
+
+(* ---------------- givpoly1axpy.inl ---------------- *)
+Definition axpy (a x y : poly) : poly := addin (pmulK a x) y.                 (* addin(mul(r,a,x),y) *)
 Definition axpyin (r a x : poly) : poly := axpy a x (assign r).
 Definition axpyin_s (r : poly) (a : T) (x : poly) : poly := axpy_s a x r.
 Definition maxpyin (r a b : poly) : poly := subin r (pmulK a b).
@@ -598,3 +695,13 @@ Definition zp_axmy p := axmy (ZpDom p).
 Definition zp_axmy_s p := axmy_s (ZpDom p).
 Definition zp_axmyin p := axmyin (ZpDom p).
 Definition zp_axmyin_s p := axmyin_s (ZpDom p).
+Definition zp_addin p := addin (ZpDom p).
+Definition zp_isDivisor p := isDivisor (ZpDom p).
+Definition zp_modpowx p := modpowx (ZpDom p).
+Definition zp_div_sp p := div_sp (ZpDom p).
+Definition zp_mod_sp (p : Z) := @mod_sp Z.
+Definition zp_mul_trunc p := mul_trunc (ZpDom p).
+Definition zp_power_compose p := power_compose (ZpDom p).
+Definition zp_interpolate p := interpolate (ZpDom p).
+Definition zp_crt_toring p := crt_toring (ZpDom p).
+Definition zp_crt_torns p := crt_torns (ZpDom p).
